@@ -3,6 +3,8 @@ free wire choices of each carrier, directed cases, shrinking."""
 from __future__ import annotations
 
 import copy
+import json
+import re
 
 from . import http_gen as G
 
@@ -52,30 +54,62 @@ def mime(rng, canonical):
     return rng.choice(MIME_CASE[canonical]) if rng.random() < 0.06 else canonical
 
 
-def label_class(case, carrier):
-    """the declared-metadata dimension a case exercises on one carrier: a media type not written in lower case,
-    an event stream labelled with another charset than UTF-8 or starting with a byte order mark (else None)"""
+def neutralisations(case, carrier):
+    """the dimensions with an OPEN or FIXED finding of their own that a case exercises on one carrier, each with the case
+    as it is without that dimension: [(class, case')].  The oracle blames a class only when the difference goes away
+    with it (so that, once such a finding is fixed, its key shows up for a regression only)."""
     w = case.get("wire") or {}
     many = lambda v: [v] if isinstance(v, dict) else (v or [])
-    if carrier == "http_json":
-        if any(c.get("mime", "").lower() != c.get("mime", "") for c in many(w.get("json"))):
-            return "media-type-case"
-    elif carrier == "http_sse":
-        bs = many(w.get("httpsse"))
-        if any(c.get("mime", "").lower() != c.get("mime", "") for c in bs):
-            return "media-type-case"
-        if any(c.get("bom") or names_other_charset(c.get("ctp")) for c in bs):
-            return "event-stream-label"
-    elif carrier == "sse":
+    out = []
+
+    def without(edit):
+        c = copy.deepcopy(case)
+        edit(c)
+        return c
+
+    def edit_wire(key, f):
+        def go(c):
+            v = c["wire"][key]
+            for b in ([v] if isinstance(v, dict) else v):
+                f(b)
+        return go
+
+    def lower_mime(b):
+        if "mime" in b:
+            b["mime"] = b["mime"].lower()
+
+    def plain_label(b):
+        b["bom"] = False
+        if names_other_charset(b.get("ctp")):
+            b["ctp"] = None
+
+    if carrier == "stdio" and case.get("escape") and "cancel scope" in json.dumps(case.get("xs"), ensure_ascii=False).lower():
+        def reword(c):
+            c["xs"] = json.loads(re.sub("cancel scope", "cancel-scope", json.dumps(c["xs"], ensure_ascii=False), flags=re.I))
+        out.append(("error-text-cancel-scope", without(reword)))
+    key = {"http_json": "json", "http_sse": "httpsse"}.get(carrier)
+    if key and any(c.get("mime", "").lower() != c.get("mime", "") for c in many(w.get(key))):
+        out.append(("media-type-case", without(edit_wire(key, lower_mime))))
+    if carrier == "http_sse" and any(c.get("bom") or names_other_charset(c.get("ctp")) for c in many(w.get("httpsse"))):
+        out.append(("event-stream-label", without(edit_wire("httpsse", plain_label))))
+    if carrier == "sse":
         e = w.get("sse") or {}
         if e.get("bom") or names_other_charset(e.get("ctp")):
-            return "event-stream-label"
+            out.append(("event-stream-label", without(edit_wire("sse", plain_label))))
         if any((x["call"].get("pause") or 0) >= SSE_TIMEOUT_TICKS for x in case.get("xs") or []):
-            return "consumer-slower-than-timeout"
+            def quick(c):
+                for x in c["xs"]:
+                    if (x["call"].get("pause") or 0) >= SSE_TIMEOUT_TICKS:
+                        x["call"]["pause"] = 700
+            out.append(("consumer-slower-than-timeout", without(quick)))
         ids = [x["call"]["id"] for x in case.get("xs") or [] if isinstance(x["call"].get("id"), dict)]
         if any(("i" in a) != ("i" in b) and str(a.get("i", a.get("s"))) == str(b.get("i", b.get("s"))) for a in ids for b in ids):
-            return "id-twins"   # 7 and "7" used as request ids on one connection
-    return None
+            def apart(c):   # 7 and "7" used as request ids on one connection: the string ids get a suffix
+                for x in c["xs"]:
+                    if isinstance(x["call"].get("id"), dict) and "s" in x["call"]["id"]:
+                        x["call"]["id"] = {"s": x["call"]["id"]["s"] + "-s"}
+            out.append(("id-twins", without(apart)))
+    return out
 
 
 KEYS = ["k", "é", "", "a b", "\U0001F600", "data", "id", "jsonrpc", "method", "params", "result", "error", "_meta", "progressToken", "%s", "{}",
@@ -612,6 +646,66 @@ def late_duplicates():
                                 "call": {"h": "send_message", "id": second, "method": "prompts/get", "params": None},
                                 "gap": 1, "lat": 1, "notifs": [{"method": "x"}], "reply": {"result": {}}}],
                         "style": {"sp": False, "ascii": False}, "D": 5120, "tie": "events", "wire": {"sse": {"m200": [False, m200]}}})
+    return out
+
+
+PHRASES = ["cancel scope", "broken pipe", "connection closed", "closed resource", "json object must be str", "timeout", "timed out",
+           "connection refused", "end of stream", "cancelled", "not connected", "session terminated"]
+
+
+def matched_phrases():
+    """texts the transports' and the client's own code may match exception TEXT against: the fixed list above and
+    every plain lower-case phrase (2..5 words) that is a string constant of those modules (tuples of fragments,
+    `"…" in str(e).lower()` tests), re-read from the source under test"""
+    import ast
+    import re
+    from .core import REPO
+    found = []
+    root = REPO / "src" / "chuk_mcp"
+    for f in sorted(list((root / "transports").rglob("*.py")) + list((root / "client").rglob("*.py"))):
+        try:
+            tree = ast.parse(f.read_text())
+        except Exception:  # noqa
+            continue
+        docs = {id(n.value) for n in ast.walk(tree) if isinstance(n, ast.Expr) and isinstance(n.value, ast.Constant)}
+        for n in ast.walk(tree):
+            if isinstance(n, ast.Constant) and isinstance(n.value, str) and id(n) not in docs \
+                    and re.fullmatch(r"[a-z]+( [a-z]+){1,4}", n.value) and len(n.value) <= 40:
+                found.append(n.value)
+    out = []
+    for t in PHRASES + sorted(set(found)):
+        if t not in out:
+            out.append(t)
+    return out[:48]
+
+
+def escaping_errors(rng, names):
+    """the usual application shape: the request helper runs INSIDE the carrier's own context manager (or Transport
+    object) and its exception is not caught in the block; compared: what leaves the block, per carrier.  Error
+    replies of every class whose message is / contains a phrase the transports match exception text against."""
+    out = []
+    classes = error_codes()
+    k = 0
+    for t in matched_phrases():
+        for form in (t, "upstream " + t.upper() + " by peer"):
+            k += 1
+            name, codes = classes[k % len(classes)]
+            h = (names + ["send_message", "send_initialize"])[k % (len(names) + 2)]
+            call = {"h": h} if h != "send_message" else {"h": h, "method": "tools/call", "params": {"name": "t"}}
+            e = {"code": codes[k % len(codes)], "message": form}
+            if k % 3 == 0:
+                e["data"] = {"detail": form}
+            out.append({"xs": [{"call": {"h": "send_ping"}, "notifs": [], "reply": {"result": {}}, "lat": 1, "gap": 1},
+                               {"call": call, "notifs": [{"method": "notifications/message", "params": {"data": form}}] if k % 2 else [],
+                                "reply": {"error": e}, "lat": 1, "gap": 1}],
+                        "style": STYLES[k % len(STYLES)], "D": 5120, "tie": TIES[k % len(TIES)], "escape": True,
+                        "via": "transport" if k % 4 == 0 else "cm", "wire": {"json": {"all": True}}})
+    # what leaves the block when nothing is wrong, after a timeout, after a result the helper rejects
+    for h in names[:4]:
+        out.append({"xs": [{"call": {"h": h}, "notifs": [], "reply": {"result": template(h, rng)}, "lat": 1, "gap": 1}],
+                    "style": STYLES[0], "D": 5120, "escape": True, "wire": {"json": {"all": True}}})
+        out.append({"xs": [{"call": {"h": h}, "notifs": [], "reply": {"result": template(h, rng)}, "lat": 40, "gap": 1, "D": 5}],
+                    "style": STYLES[0], "D": 5120, "escape": True, "wire": {"json": {"all": True}}})
     return out
 
 
